@@ -144,6 +144,7 @@ macro_rules! check_group {
 macro_rules! free_fns {
     ($name:ident, $len:expr) => {
         #[kani::proof]
+        #[kani::stub(alloc::vec::Vec::push, crate::stubs::push_no_grow)]
         #[kani::unwind(10)]
         fn $name() {
             let w: [u64; 2] = kani::any();
@@ -176,6 +177,7 @@ free_fns!(c04_free_len1, 1);
 macro_rules! bp_owned {
     ($name:ident, $grp:ident, $len:expr) => {
         #[kani::proof]
+        #[kani::stub(alloc::vec::Vec::push, crate::stubs::push_no_grow)]
         #[kani::unwind(10)]
         fn $name() {
             let w: [u64; 2] = kani::any();
@@ -211,6 +213,7 @@ bp_owned!(c04_bp_rank_len1, rank, 1);
 macro_rules! bp_borrowed {
     ($name:ident, $grp:ident, $len:expr) => {
         #[kani::proof]
+        #[kani::stub(alloc::vec::Vec::push, crate::stubs::push_no_grow)]
         #[kani::unwind(10)]
         fn $name() {
             let w: [u64; 2] = kani::any();
@@ -236,6 +239,7 @@ bp_borrowed!(c04_bp_borrowed_rank_len65, rank, 65);
 macro_rules! bp_select {
     ($name:ident, $len:expr, $ctor:expr) => {
         #[kani::proof]
+        #[kani::stub(alloc::vec::Vec::push, crate::stubs::push_no_grow)]
         #[kani::unwind(10)]
         #[kani::stub(succinctly::util::simd::x86::has_fast_bmi2, any_bool)]
         #[kani::stub(core::arch::x86_64::_pdep_u64, models::pdep_u64)]
@@ -284,6 +288,7 @@ bp_select!(c04_bp_cspoppy_rate7_len128, 128, cspoppy_rate7);
 bp_select!(c04_bp_cspoppy_rate4096_len65, 65, cspoppy_rate4096);
 
 #[kani::proof]
+#[kani::stub(alloc::vec::Vec::push, crate::stubs::push_no_grow)]
 #[kani::unwind(10)]
 fn c04_witness_must_fail() {
     let w: [u64; 2] = kani::any();
